@@ -1,8 +1,10 @@
 mod acc;
 mod alloc;
 mod checks;
+mod directed;
 mod engine_crash;
 mod engine_gc;
+mod engine_heap;
 mod engine_purity;
 mod engine_session;
 mod gen_program;
@@ -28,6 +30,7 @@ fn main() {
             let tier = acc::Tier::parse(args.get(3).map(|s| s.as_str()).unwrap_or("quick"));
             match args.get(2).map(|s| s.as_str()) {
                 Some("C04") => checks::check_c04(tier),
+                Some("C03") => checks::check_c03(tier),
                 _ => {
                     eprintln!("unknown property");
                     2
